@@ -1288,6 +1288,9 @@ def sig_c10(f):
         return f"C10|does-not-compile|code={f['code']}|site={f['site']}"
     if f["rule"] == "wire" and f["diff"]["kind"] in ("not-wellformed", "element-namespace"):
         return f"C10|wire|{f['diff']['kind']}|{f['diff'].get('reason', '')}"
+    if f["rule"] in ("struct-missing", "struct-duplicate"):
+        # a struct is looked for under the URI of its schema: missing/duplicate there means the namespace assignment is off
+        return f"C10|component-not-once-under-its-namespace|{f['rule']}|kind={f['kind']}"
     return None
 
 
